@@ -263,7 +263,7 @@ def run_campaign(check, tier, seed, workers=None, n_cases=None, log=print):
                     futs[pool.submit(_worker_chunk, (seed, tier, chunks[ci], timeout_s, frozenset(skip)))] = ci
                     return True
                 return False
-            for _ in range(2 * workers):
+            for _ in range(workers + 3):
                 if not submit_next():
                     break
             while futs:
@@ -280,7 +280,7 @@ def run_campaign(check, tier, seed, workers=None, n_cases=None, log=print):
                         done_now.append(ci)
                 if broken:
                     break
-                while len(futs) < 2 * workers:
+                while len(futs) < workers + 3:
                     if not submit_next():
                         break
             if time.time() - t0 > budget and not broken:
